@@ -18,6 +18,11 @@ type D = OwnedDeps<MockStorage, MockApi, MockQuerier>;
 const A: &str = "uosmo";
 const B: &str = "ibc/C3E53D20BC7A4CC993B17C7971F8ECD06A433C10B6A96F4C4C3714F0624C56DA";
 const C: &str = "factory/osmo1xyz/umilkTIA";
+// denoms that re-split the same characters around a `/` (an allow-list test on a joined string would confuse them)
+const C_HEAD: &str = "factory/osmo1xyz";
+const C_TAIL_A: &str = "umilkTIA/uosmo";
+const A_C_HEAD: &str = "uosmo/factory";
+const C_REST: &str = "osmo1xyz/umilkTIA";
 
 fn hop(pool: u64, i: &str, o: &str) -> SwapRoute {
     SwapRoute { pool_id: pool, token_in_denom: i.to_string(), token_out_denom: o.to_string() }
@@ -82,7 +87,7 @@ fn exec(deps: &mut D, who: &Who, sender: &str, msg: ExecuteMsg) -> Result<Result
 }
 
 fn route_name(r: &[SwapRoute]) -> String {
-    let short = |d: &str| if d == A { "A" } else if d == B { "B" } else { "C" };
+    let short = |d: &str| -> String { if d == A { "A".into() } else if d == B { "B".into() } else if d == C { "C".into() } else { format!("[{}]", d.replace('/', "|")) } };
     r.iter().map(|h| format!("{}{}{}", h.pool_id, short(&h.token_in_denom), short(&h.token_out_denom))).collect::<Vec<_>>().join("-")
 }
 
@@ -104,7 +109,8 @@ fn finish(f: &Filter, r: &Result<Result<Response, String>, String>) {
 }
 
 pub fn swap_case(list_name: &'static str, routes: Vec<Vec<SwapRoute>>, cand: Vec<SwapRoute>, exact_in: bool, sender: &'static str, coin_denom: &'static str) -> Case {
-    let name = format!("tre:{list_name}:{}:{}:{sender}:{}", if exact_in { "in" } else { "out" }, route_name(&cand), if coin_denom == A { "A" } else if coin_denom == B { "B" } else { "C" });
+    let short = |d: &str| -> String { if d == A { "A".into() } else if d == B { "B".into() } else if d == C { "C".into() } else { d.replace('/', "|") } };
+    let name = format!("tre:{list_name}:{}:{}:{sender}:{}", if exact_in { "in" } else { "out" }, route_name(&cand), short(coin_denom));
     Case {
         name,
         run: Box::new(move |f: &Filter, _mw: bool| {
@@ -344,6 +350,25 @@ pub fn cases(tier: &str) -> Vec<Case> {
                     }
                 };
                 v.push(swap_case(ln, routes.clone(), c.clone(), exact_in, "trader", endpoint));
+            }
+        }
+    }
+    // `/` inside denoms: candidates that move the in / out boundary of an allow-listed hop across a `/`
+    let slash_lists: Vec<(&'static str, Vec<Vec<SwapRoute>>)> = vec![("slashCA", vec![vec![hop(10, C, A)]]), ("slashAC", vec![vec![hop(10, A, C)]]), ("slash2", vec![vec![hop(10, C, A), hop(11, A, B)]])];
+    for (ln, routes) in slash_lists {
+        let cands = vec![
+            vec![hop(10, C, A)],
+            vec![hop(10, A, C)],
+            vec![hop(10, C_HEAD, C_TAIL_A)],
+            vec![hop(10, A_C_HEAD, C_REST)],
+            vec![hop(10, C_HEAD, C_TAIL_A), hop(11, A, B)],
+            vec![hop(10, C, A), hop(11, A, B)],
+        ];
+        for cand in cands {
+            for exact_in in [true, false] {
+                for coin in [A, C, C_HEAD, C_TAIL_A, A_C_HEAD, C_REST, B] {
+                    v.push(swap_case(ln, routes.clone(), cand.clone(), exact_in, "trader", coin));
+                }
             }
         }
     }
